@@ -264,6 +264,7 @@ pub fn dispatch(cmd: &str, name: &str, arg: &str) -> Option<String> {
     if name.starts_with("connect.") { return dispatch_connect(cmd, name, arg); }
     if name.starts_with("loopback.") { return dispatch_loopback(cmd, name, arg); }
     if name.starts_with("skip.") { return dispatch_skipgrad(cmd, name, arg); }
+    if name == "learn.stopping" { return dispatch_stopping(cmd, name, arg); }
     if name.starts_with("learn.") { return dispatch_schedule(cmd, name, arg); }
     if name.starts_with("validate.") { return dispatch_validate(cmd, name, arg); }
     if name == "feedback.tied" { return dispatch_tied(cmd, name, arg); }
@@ -1152,4 +1153,49 @@ pub fn dispatch_chain(cmd: &str, name: &str, arg: &str) -> Option<String> {
         match chain_one(s) { Ok(Some(_)) => accepted += 1, Ok(None) => {}, Err(e) => return Some(format!("{{\"failed\":true,\"tried\":{},\"input\":{{\"seed\":{}}},\"detail\":{:?}}}", tried, s, e)) }
     }
     Some(format!("{{\"failed\":false,\"tried\":{},\"accepted_by_the_builder\":{}}}", tried, accepted))
+}
+
+// ------------------------------------------------------------------------------------------------ early stopping and histories (C13)
+pub fn stopping_one(tol: i32, epochs: i32, lr_k: u64, seed: u64) -> Result<(), String> {
+    let mut rng = Lcg(seed.wrapping_mul(48271).wrapping_add(lr_k));
+    let mut net = crate::network::Network::new(Shape::Single(2));
+    net.dense(3, Activation::Tanh, true, None);
+    net.dense(1, Activation::Linear, true, None);
+    net.set_objective(crate::objective::Objective::MSE, None);
+    // from tiny to divergent step sizes: falling, oscillating and rising validation losses all occur
+    net.set_optimizer(crate::optimizer::SGD::create([0.001f32, 0.05, 0.4, 1.5][lr_k as usize % 4], None));
+    let xs: Vec<Tensor> = (0..4).map(|_| Tensor::single(vec![rng.int(-2, 2), rng.int(-2, 2)])).collect();
+    let ys: Vec<Tensor> = (0..4).map(|_| Tensor::single(vec![rng.int(-2, 2)])).collect();
+    let xr: Vec<&Tensor> = xs.iter().collect();
+    let yr: Vec<&Tensor> = ys.iter().collect();
+    let with_val = seed % 3 != 0;
+    let run = std::panic::catch_unwind(std::panic::AssertUnwindSafe(|| net.learn(&xr, &yr, if with_val { Some((&xr, &yr, tol)) } else { None }, 2, epochs, None)));
+    let (tl, vl, va) = match run { Ok(r) => r, Err(_) => return Ok(()) };            // a NaN training loss aborts: permitted
+    let n = tl.len();
+    if n < 1 || n > epochs as usize { return Err(format!("{} training-loss entries for a budget of {} epochs", n, epochs)); }
+    if !with_val { return if vl.is_empty() && va.is_empty() && n == epochs as usize { Ok(()) } else { Err(format!("without validation data: {} epochs of {} run, {} / {} validation entries", n, epochs, vl.len(), va.len())) }; }
+    if vl.len() != n || va.len() != n { return Err(format!("{} epochs run but {} validation-loss and {} accuracy entries", n, vl.len(), va.len())); }
+    if vl.iter().any(|v| v.is_nan()) { return Ok(()); }                               // NaN trajectories are outside the property's quantifier
+    let stop = |e: usize| -> bool { let t = tol as usize; e > t && (e - t..e - 1).all(|k| vl[k + 1] > vl[k]) };
+    for e in 1..n { if stop(e) { return Err(format!("training continued past epoch {} although the validation loss had strictly increased for {} epochs: {:?}", e, tol, vl)); } }
+    if n < epochs as usize && !stop(n) { return Err(format!("training stopped after epoch {} of {} although the stopping condition does not hold: {:?}", n, epochs, vl)); }
+    Ok(())
+}
+pub fn dispatch_stopping(cmd: &str, name: &str, arg: &str) -> Option<String> {
+    if name != "learn.stopping" { return None; }
+    if std::env::var("VERIF_SHOW_PANIC").is_err() { std::panic::set_hook(Box::new(|_| {})); }
+    let fmt = |v: [u64; 4]| format!("{{\"tolerance\":{},\"epochs\":{},\"step_size_class\":{},\"seed\":{}}}", v[0], v[1], v[2], v[3]);
+    if cmd == "run" {
+        let v: Vec<u64> = arg.split(|c: char| !c.is_ascii_digit()).filter(|x| !x.is_empty()).filter_map(|x| x.parse().ok()).collect();
+        if v.len() != 4 { return None; }
+        let a = [v[0], v[1], v[2], v[3]];
+        return Some(match stopping_one(a[0] as i32, a[1] as i32, a[2], a[3]) { Ok(()) => format!("{{\"failed\":false,\"input\":{}}}", fmt(a)), Err(e) => format!("{{\"failed\":true,\"input\":{},\"detail\":{:?}}}", fmt(a), e) });
+    }
+    let mut tried = 0usize;
+    for tol in 1..=3u64 { for ep in [1u64, 2, 5, 9] { for k in 0..4u64 { for s in 0..6u64 {
+        tried += 1;
+        let a = [tol, ep, k, s];
+        if let Err(e) = stopping_one(tol as i32, ep as i32, k, s) { return Some(format!("{{\"failed\":true,\"tried\":{},\"input\":{},\"detail\":{:?}}}", tried, fmt(a), e)); }
+    }}}}
+    Some(format!("{{\"failed\":false,\"tried\":{}}}", tried))
 }
